@@ -41,17 +41,19 @@ type lcSrv struct {
 }
 
 type lcCfg struct {
-	label string
-	kind  int // rk* constants
-	srvs  []lcSrv
+	label     string
+	kind      int // rk* constants
+	srvs      []lcSrv
+	shutPanic bool
 }
 
 type lcAttempt struct {
-	old, neu string
-	kind     int
-	begin    int // trace index at begin
-	end      int // trace index at end (-1 running)
-	viaSig   bool
+	old, neu  string
+	kind      int
+	begin     int // trace index at begin
+	end       int // trace index at end (-1 running)
+	viaSig    bool
+	shutPanic bool // (kind rkShutdownCb) the old instance's first shutdown callback panics instead of returning an error
 }
 
 type lcRig struct {
@@ -59,32 +61,34 @@ type lcRig struct {
 	st *sim.Stream
 	mu sync.Mutex
 
-	trace     []lcEvent
-	cfgs      []*lcCfg
-	loadSeq   int
-	pending   *lcCfg // config the loader will hand out next
-	head      string // label of the current instance
-	inst      *casket.Instance
-	attempts  []*lcAttempt
-	cur       *lcAttempt
-	sigMode   bool
-	sigChans  map[os.Signal][]chan<- os.Signal
-	sigLeft   int
-	nINT      int
-	shutSig   int // trace index of the first delivered INT/TERM (-1)
-	exited    bool
-	exitCode  int
-	cleanup   bool
-	started   bool
-	opsDone   bool
-	servers   []*fakeServer
-	cbSeq     int
-	waitRet   bool
-	stopped   bool
-	underLock int
-	underOnce int // callbacks parked inside the shutdown Once while the instance-list mutex is NOT held (never on the unchanged tree)
-	hooked    map[string]bool
-	rush      bool // a signal handler is waiting for the shutdown lock: callbacks under it do not park
+	trace                  []lcEvent
+	cfgs                   []*lcCfg
+	loadSeq                int
+	pending                *lcCfg // config the loader will hand out next
+	head                   string // label of the current instance
+	inst                   *casket.Instance
+	attempts               []*lcAttempt
+	cur                    *lcAttempt
+	sigMode                bool
+	sigChans               map[os.Signal][]chan<- os.Signal
+	sigLeft                int
+	earlyUSR1              int
+	earlyFired, startBegun bool
+	nINT                   int
+	shutSig                int // trace index of the first delivered INT/TERM (-1)
+	exited                 bool
+	exitCode               int
+	cleanup                bool
+	started                bool
+	opsDone                bool
+	servers                []*fakeServer
+	cbSeq                  int
+	waitRet                bool
+	stopped                bool
+	underLock              int
+	underOnce              int // callbacks parked inside the shutdown Once while the instance-list mutex is NOT held (never on the unchanged tree)
+	hooked                 map[string]bool
+	rush                   bool // a signal handler is waiting for the shutdown lock: callbacks under it do not park
 }
 
 func (r *lcRig) noLockHeld() bool { return r.underLock == 0 }
@@ -306,6 +310,9 @@ func (r *lcRig) genCfg(kind int) *lcCfg {
 	if kind == rkListen {
 		cfg.srvs[r.st.Draw(n)].listenFail = true
 	}
+	if kind == rkShutdownCb {
+		cfg.shutPanic = r.st.Draw(2) == 0
+	}
 	r.cfgs = append(r.cfgs, cfg)
 	return cfg
 }
@@ -325,7 +332,7 @@ func (r *lcRig) load() casket.Input {
 }
 
 func (r *lcRig) beginAttempt(cfg *lcCfg, viaSig bool) {
-	a := &lcAttempt{old: r.head, neu: cfg.label, kind: cfg.kind, begin: len(r.trace), end: -1, viaSig: viaSig}
+	a := &lcAttempt{old: r.head, neu: cfg.label, kind: cfg.kind, begin: len(r.trace), end: -1, viaSig: viaSig, shutPanic: cfg.shutPanic}
 	r.attempts = append(r.attempts, a)
 	r.cur = a
 	r.ev("reload-begin", r.head, cfg.label+":"+rkNames[cfg.kind])
@@ -379,6 +386,10 @@ func (r *lcRig) callback(label, kind string) error {
 			return fmt.Errorf("injected startup failure")
 		}
 		if kind == "shutdown" && a.kind == rkShutdownCb && label == a.old {
+			if a.shutPanic {
+				r.c.Fault("shutdown-callback-panics")
+				panic("injected shutdown callback panic")
+			}
 			r.c.Fault("shutdown-callback-fails")
 			return fmt.Errorf("injected shutdown callback failure")
 		}
@@ -413,6 +424,10 @@ func runLifecycle(c *sim.Ctl) {
 	nops := st.Draw(6)
 	r.sigLeft = st.Draw(5)
 	withStopOp := st.Draw(4) == 0
+	if r.sigMode && st.Draw(3) == 0 {
+		// a reload signal that arrives while the initial start is still under way
+		r.earlyUSR1 = 1
+	}
 	c.Params["sig_reloads"] = r.sigMode
 	c.Params["nops"] = nops
 	c.Params["signals"] = r.sigLeft
@@ -465,8 +480,14 @@ func runLifecycle(c *sim.Ctl) {
 			panic(err)
 		}
 		r.ev("start-begin", cfg0.label, "")
+		r.startBegun = true
 		inst, err := casket.Start(in)
 		if err != nil {
+			if r.earlyFired {
+				c.Violate("C16/start-failed", "reload-signal-during-the-initial-start", "the initial start failed after a reload signal arrived while it was under way: %v", err)
+				r.exited = true
+				return
+			}
 			panic(fmt.Sprintf("harness: initial start failed: %v", err))
 		}
 		r.inst = inst
@@ -738,6 +759,9 @@ func (r *lcRig) endAttempt(ok bool, msg string) {
 			sig := ""
 			if a.kind == rkShutdownCb {
 				sig = "shutdown-callback-of-the-replaced-instance-returned-an-error"
+				if a.shutPanic {
+					sig = "shutdown-callback-of-the-replaced-instance-panicked"
+				}
 				ok = true // the new instance is the running one, whatever was reported
 			}
 			r.c.Violate("C16/valid-reload-failed", sig, "reload to valid config %s failed: %s", a.neu, msg)
@@ -788,6 +812,16 @@ func (r *lcRig) events(add func(sim.Event)) {
 		return
 	}
 	r.pollSigReload()
+	if r.startBegun && !r.started && r.earlyUSR1 > 0 && r.noLockHeld() {
+		add(sim.Event{Key: "sig/USR1-early", Actor: "signals", Weight: 2, Fire: func() {
+			r.earlyUSR1--
+			r.earlyFired = true
+			r.c.Fault("reload-signal-during-the-initial-start")
+			// (the configuration was edited meanwhile: the usual reason for a reload)
+			r.pending = r.genCfg(rkOK)
+			r.sendSignal(syscall.SIGUSR1)
+		}})
+	}
 	if r.started && r.sigLeft > 0 {
 		for _, s := range []os.Signal{os.Interrupt, syscall.SIGTERM, syscall.SIGQUIT, syscall.SIGHUP} {
 			s := s
@@ -862,6 +896,25 @@ func (r *lcRig) check() {
 	v0 := ""
 	if len(r.cfgs) > 0 {
 		v0 = r.cfgs[0].label
+	}
+	// (a0) while the initial start is under way nothing but that start happens: no callback of
+	// another instance, and of the starting one only first-startup and startup callbacks (a reload
+	// signal meanwhile is refused or waits)
+	if sb := first("start-begin", v0); sb >= 0 && r.earlyFired {
+		se := first("start-end", v0)
+		if se < 0 || se > end {
+			se = end
+		}
+		for i := sb; i < se; i++ {
+			e := tr[i]
+			if !strings.HasPrefix(e.kind, "cb:") || e.arg == "by-signal" {
+				continue
+			}
+			if e.inst != v0 || (e.kind != "cb:firststartup" && e.kind != "cb:startup") {
+				c.Violate("C16/reload-of-an-instance-still-starting", "", "the initial start of %s was still under way when %s of %s ran (a reload signal had arrived meanwhile)", v0, e.kind, e.inst)
+				break
+			}
+		}
 	}
 	// (a) first-startup only at the initial start, at most once
 	for _, cfg := range r.cfgs {
